@@ -261,3 +261,42 @@ PROPS["C14"] = {
                       "github.com/gmrtd/gmrtd/cryptoutils.DecodeX962EcPoint": "verifStubDecodePoint"}, "expect_reach": ["returned"]},
     ],
 }
+
+PROPS["C01"] = {
+    "patterns": ["./passiveauth"],
+    "harness": {"passiveauth": ["passiveauth/c01.go"]},
+    "level_text": "Claimed in part: the composition (accept implies every required check passed), not the primitives. The real SSA of passiveauth.PassiveAuth, validateDgHashes, countryCscaCerts, alpha2CountryCode, Document.DgHashes/DgHash and SOD.DgHash is executed over a symbolic document: DG1/DG2/DG14 present or absent with symbolic raw bytes, EF.SOD present or absent with a hash list of up to 2 entries whose numbers range over {1,2,14,3} and whose values are H(raw) XOR an arbitrary delta or empty, CardSecurity present or absent; the outcome of SignedData.Verify for SOD and CardSecurity, the signer country, the DG1 country (incl. letter case and resolution errors) and the number of trust anchors of that country are symbolic. z3 shows: Success implies EF.SOD present, at least one anchor of the signer's country (the store is asked for exactly that country), signer country = DG1 country when DG1 is present, SOD.Verify returned no error against those anchors, CardSecurity (when present) verified against the same anchors and its verdict is recorded only then, and every present data group has a first hash-list entry for its number that is non-empty and equals the hash of the raw bytes (delta = 0) - a data group missing from the list is rejected as injection.",
+    "level_note": "Not applicable to this technique: signature verification (RSA/ECDSA/PSS, brainpool), X.509/CMS decoding (encoding/asn1 reflection), the chain building inside SignedData.Verify/Certificate.Verify and the pool look-ups; hence 'no byte-level mutation of a genuine SOD passes' is not a solver result here. SignerInfo/Certificate.VerifyWithConfig gating is not yet encoded. The harness cannot be replayed natively (stubs injected by the engine).",
+    "bounds": "3 data groups, hash list of up to 2 entries, 32-byte digests (uninterpreted SHA-256), 0..2 anchors",
+    "outside": "cms package internals; more data groups (the loop over hashable ids is the same code)",
+    "assumptions": ["SHA-256 as an uninterpreted function"],
+    "jobs": [
+        {"func": "verifH_C01_passiveauth", "pkg": "passiveauth", "unwind": 300, "no_replay": True, "expect_reach": ["success", "failed"],
+         "redirect": {"(github.com/gmrtd/gmrtd/document.SOD).CertCountryAlpha2": "verifStubSodCountry", "(github.com/gmrtd/gmrtd/document.DG1).IssuingCountryAlpha2": "verifStubDg1Country",
+                      "(*github.com/gmrtd/gmrtd/cms.SignedData).Verify": "verifStubSDVerify"}},
+    ],
+}
+
+PROPS["C20"] = {
+    "patterns": ["./reader", "./verifier", "./mobile", "./cms"],
+    "harness": {"reader": ["reader/c08.go", "reader/c20.go"], "verifier": ["verifier/c14.go", "verifier/c20.go"], "mobile": ["mobile/c20.go"], "cms": ["cms/c20.go"]},
+    "level_text": "Claimed in part, as lock discipline rather than schedule exploration (goroutines are not executed by this technique). The engine tracks every sync.Mutex by identity and every load/store of the fields of a shared object; each public method of reader.Reader (SkipPace, SkipImages, WithAAChallenge, ReadDocument), verifier.Verifier (WithAAChallenge, Verify) and mobile.Reader (SetApduMaxLe, SkipPace, SkipImages, WithAAChallenge, ReadDocument) is executed on all its paths (callees below the step functions stubbed as in C08/C14) and z3/the engine show that every access to the shared configuration happens while the object's mutex is held and that the mutex is released on return. Hence calls on a shared instance are mutually exclusive on that state for any number of threads: no data race on it and no half-applied configuration. For the built-in trust store of the mobile bindings: cscaCertPool/cscaInitErr are only touched inside cscaOnce.Do or after it returned, and the loader runs at most once per process state. For a shared trust store: GenericCertPool.BySKI/ByIssuerCountry/All/Count perform no store to the pool or its certificates and return copies.",
+    "level_note": "Not applicable / outside: arbitrary interleavings and the Go memory model beyond mutex/Once edges, races inside the stubbed callees (ASN.1, crypto, slog, the NFC session object that a Reader is given), the run-time race detector's view. ByIssuerAndSerial (ASN.1 inside) is not covered.",
+    "bounds": "one call (ReadDocument: two consecutive calls for mobile) per method on every path of the method; pools of 0 and 2 certificates",
+    "outside": "thread schedules; callees below the stubs",
+    "assumptions": ["sync.Mutex provides mutual exclusion and happens-before; sync.Once runs its function once and orders it before every return of Do"],
+    "jobs": [
+        {"func": "verifH_C20_reader", "pkg": "reader", "params": {"method": [0, 1, 3], "n": 8, "errs": 0, "files": 1}, "unwind": 64, "no_replay": True, "redirect": _C08_REDIR, "expect_reach": ["done"]},
+        {"func": "verifH_C20_reader", "pkg": "reader", "params": {"method": [2], "n": [7, 8]}, "unwind": 64, "no_replay": True, "redirect": _C08_REDIR, "expect_reach": ["done"]},
+        {"func": "verifH_C20_verifier", "pkg": "verifier", "params": {"method": [0, 1], "n": [7, 8]}, "unwind": 64, "no_replay": True, "expect_reach": ["done"],
+         "redirect": {"github.com/gmrtd/gmrtd/document.UnmarshalVerifiableDoc": "verifStubUnmarshal", "github.com/gmrtd/gmrtd/pace.VerifyEvidence": "verifStubCam",
+                      "github.com/gmrtd/gmrtd/chipauth.VerifyEvidence": "verifStubCa", "github.com/gmrtd/gmrtd/activeauth.VerifyEvidence": "verifStubAa",
+                      "github.com/gmrtd/gmrtd/passiveauth.PassiveAuth": "verifStubPA", "(*github.com/gmrtd/gmrtd/document.Document).Verify": "verifStubDocVerify"}},
+        {"func": "verifH_C20_pool", "pkg": "cms", "params": {"method": [0, 1, 2, 3], "k": [0, 2]}, "unwind": 64, "no_replay": True, "expect_reach": ["done"],
+         "redirect": {"(github.com/gmrtd/gmrtd/cms.Extensions).SubjectKeyIdentifier": "verifStubSKI", "(github.com/gmrtd/gmrtd/cms.TBSCertificate).IssuerRDN": "verifStubIssuerRDN",
+                      "(github.com/gmrtd/gmrtd/cms.RDNSequence).ByOID": "verifStubByOID"}},
+        {"func": "verifH_C20_mobile", "pkg": "mobile", "params": {"method": [0, 1, 2, 3, 4], "n": [7, 8]}, "unwind": 64, "no_replay": True, "expect_reach": ["done"],
+         "redirect": {"github.com/gmrtd/gmrtd/cms.DefaultMasterList": "verifStubMasterList", "(*github.com/gmrtd/gmrtd/reader.Reader).ReadDocument": "verifStubReaderRead",
+                      "(*github.com/gmrtd/gmrtd/verifier.Verifier).Verify": "verifStubVerifierVerify"}},
+    ],
+}
